@@ -823,6 +823,13 @@ func R23() Rule {
 // R24: header / body agreement
 // ---------------------------------------------------------------------------
 
+func isResponseWriterType(t types.Type) bool {
+	if mi, ok := t.(*types.Named); ok && mi.Obj().Pkg() != nil && mi.Obj().Pkg().Path() == "net/http" && mi.Obj().Name() == "ResponseWriter" {
+		return true
+	}
+	return false
+}
+
 func R24() Rule {
 	return Rule{Name: "R24", Run: func(c *core.Ctx) {
 		P := c.P
@@ -838,6 +845,57 @@ func R24() Rule {
 					continue
 				}
 				field := ""
+				if strings.ToLower(hname) == "content-length" {
+					// the announced length is len(X) of the very X every Write reachable from here sends
+					n++
+					k++
+					c.Fn(core.FuncName(fn))
+					construct := fmt.Sprintf("%s/content-length#%d", core.FuncName(fn), k)
+					var lenOf ssa.Value
+					if call, ok := core.Resolve(ci.Common.Args[2]).(*ssa.Call); ok && (core.Call(call).IsFunc("strconv", "Itoa") || core.Call(call).IsFunc("strconv", "FormatInt")) {
+						arg := call.Call.Args[0]
+						if cv, isCv := arg.(*ssa.Convert); isCv {
+							arg = cv.X
+						}
+						lenOf = lenArg(arg)
+					}
+					if lenOf == nil {
+						c.Infof("R24", construct, ci.Instr.Pos(), "Content-Length is not the length of a byte slice: not decided")
+						continue
+					}
+					var bad ssa.Instruction
+					for _, c2 := range core.AllCalls(fn) {
+						if c2.Method == nil || c2.Method.Name() != "Write" || !core.InstrReaches(ci.Instr, c2.Instr) || len(c2.Common.Args) != 1 {
+							continue
+						}
+						if !isResponseWriterType(c2.Common.Value.Type()) {
+							continue
+						}
+						if !sameSlice(c2.Common.Args[0], lenOf) {
+							bad = c2.Instr
+						}
+					}
+					// a body streamed from another source (io.Copy of a decoder) after the length was announced
+					for _, c2 := range core.AllCalls(fn) {
+						dst := c2.Common.Args
+						if !c2.IsFunc("io", "Copy") || len(dst) < 1 {
+							continue
+						}
+						wv := dst[0]
+						if ch, isCh := wv.(*ssa.ChangeInterface); isCh {
+							wv = ch.X
+						}
+						if core.InstrReaches(ci.Instr, c2.Instr) && isResponseWriterType(wv.Type()) {
+							bad = c2.Instr
+						}
+					}
+					if bad != nil {
+						c.Bad("R24", construct, ci.Instr.Pos(), "Content-Length announces the length of one byte slice, but a body written at %s is something else (e.g. the decompressed form): the client reads a truncated body or hangs", P.Pos(bad.Pos()))
+					} else {
+						c.Ok("R24", construct, ci.Instr.Pos(), true, "every body write reachable from here sends the slice whose length is announced")
+					}
+					continue
+				}
 				switch strings.ToLower(hname) {
 				case "x-goog-generation":
 					field = "Generation"
